@@ -103,7 +103,40 @@ let () = iter_lines (fun line ->
       let b = Printf.sprintf "%s src=%s dst=%s" (stat_str st w') (join_sorted s) (join (key_sorted d)) in
       let b = if movable c then b ^ " copies=" ^ copies w' else b in
       (b, fired w'))
-  | ["xi"; c; kind; idx; dst; b0] ->
+  | "eh" :: _c :: ops ->
+    (* the GENERATED holder functions (Gen_Holder): the state is the mHasItem flag; a throwing functor leaves mFlagAtCall *)
+    let flag = ref false in
+    let res = Stdlib.List.map (fun op ->
+      let o = op.[0] in
+      let st =
+        (match o with
+         | 'c' | 'C' -> (match Gen_Holder.coq_Create !flag false with
+                         | GenPrelude.Ok ((_, f'), at_call) -> if o = 'c' then (flag := f'; "S") else (flag := at_call; "E")
+                         | _ -> "STUCK")
+         | 'r' | 'R' -> (match Gen_Holder.coq_Remove !flag false with
+                         | GenPrelude.Ok ((_, f'), at_call) -> if o = 'r' then (flag := f'; "S") else (flag := at_call; "E")
+                         | _ -> "STUCK")
+         | 'x' -> flag := Gen_Holder.coq_Clear !flag false; "S"
+         | _ -> if Gen_Holder.coq_IsEmpty !flag false then "empty" else "full") in
+      st ^ ":" ^ (if !flag then "1" else "0")) ops in
+    String.concat " " res
+  | ["hs"; c; kind; _hintpos; hint_ok; idx; dst; src] ->
+    let c = cat_of c in
+    let src = key_sorted (zs src) and dst = key_sorted (zs dst) in
+    let x = Stdlib.List.nth src (int_of_string idx) in
+    let src' = Stdlib.List.filter (fun y -> y <> x) src in
+    enumerate kind (fun w ->
+      (* src.extract(it): a tree extraction (leaf), then the hinted insert of the handle *)
+      let (w1, e) = relocate c w x in
+      (match e with
+       | None -> (Printf.sprintf "%s src=%s dst=%s holder=none%s" (fail_status w1) (join_sorted src) (join_sorted dst)
+                    (if movable c then " copies=" ^ copies w1 else ""), fired w1)
+       | Some e ->
+         let (((w2, d'), h'), st) = std_insert_hint c false w1 dst (Some e) (hint_ok = "1") in
+         let show = function None -> "none" | Some v -> string_of_z v in
+         (Printf.sprintf "%s src=%s dst=%s holder=%s%s" (stat_str st w2) (join_sorted src') (join_sorted d') (show h')
+            (if movable c then " copies=" ^ copies w2 else ""), fired w2)))
+  | [("xi" | "xa") as m; c; kind; idx; dst; b0] ->
     let c = cat_of c in
     let b0 = zs b0 and dst = zs dst and idx = nat_of_int (int_of_string idx) in
     enumerate kind (fun w ->
@@ -112,7 +145,7 @@ let () = iter_lines (fun line ->
       if not ok then
         (Printf.sprintf "%s ? src=%s dst=%s holder=none %s" (fail_status w1) (join b') (join_sorted dst) (trace_str w1.tr []), fired w1)
       else
-        let (((w2, d'), h'), st) = insert_holder c false w1 dst h in
+        let (((w2, d'), h'), st) = if m = "xa" then add_holder c w1 dst h else insert_holder c false w1 dst h in
         let w3 = holder_clear { w2 with tr = [] } h' in
         let ins = (match st with Failed -> "?" | _ -> if h' = None then "ins" else "dup") in
         let t = trace_str w2.tr [] in
